@@ -17,12 +17,16 @@ for _cls, _kind in [("IterateShardNP", "npz"), ("IterateShardFlatBuffer", "fb"),
     _meth_axiom(_cls, "iterate_shard", _kind)
     # from the contract of process_and_list below
     axiom("forall(lambda ds, pr: METHV(%r, 'process_and_list', ds, pr) == PALF(%r, ds, pr), pr='U', pats=[%r])" % (_cls, _kind, "METHV(%r, 'process_and_list', ds, pr)" % _cls))
-axiom("forall(lambda f, x: APP(FOI(f), x) == ite_u(is_none(f), x, APP(f, x)), f='U', x='U', pats=['APP(FOI(f), x)'])")
-
 MU = "sedpack/io/utils.py"
+# `identity` is verified from source; the function object FN_IDENTITY() gets its defining fact
+# (forall x. APP(FN_IDENTITY(), x) == x) generated from that contract, and FOI is *defined* from it
+# (it used to be an assumed axiom about APP(FOI(f), x)).
+contract(MU, "identity", props=["C02"], params={"x": "U"}, returns="U", modifies=[],
+    ensures=["result == x"])
+funcref(MU, "identity", "FN_IDENTITY")
+axiom("forall(lambda f: FOI(f) == ite_u(is_none(f), FN_IDENTITY(), f), f='U', pats=['FOI(f)'])")
 contract(MU, "func_or_identity", props=["C02"], params={"f": "optfunc"}, returns="func", modifies=[],
-    ensures=["result == FOI(f)"], verify=False, assumed=True,
-    note="returns f or the identity function; 3 lines, checked by the run-time contract")
+    ensures=["result == FOI(f)"])
 
 contract("sedpack/io/shard/iterate_shard_base.py", "IterateShardBase.__init__", props=["C02", "C12"],
     params={"dataset_structure": "ref:DatasetStructure", "process_record": "optfunc"},
